@@ -224,7 +224,14 @@ class Mon:
             self.bad("version_files", "version files disagree with the status files after a write",
                      f"seq {seq}: {cvf}/{cfg['version']} {jvf}/{js['version']}")
         if mem is not None:
-            if cfg != mem["cfg"] or (mem.get("js") is not None and _norm_js(js) != _norm_js(mem["js"])):
+            # an operation that writes the job status only (complete_id) is compared on the job status;
+            # its handle's config copy may legitimately be behind (an operator takeover between the
+            # call and its turn at the lock), and it must leave the config file alone
+            js_only = op["op"] == "complete_id"
+            if js_only and before is not None and before["cluster_config.json"] != after["cluster_config.json"]:
+                self.bad("disk_differs_from_writer", "files do not hold the state the up-to-date writer wrote",
+                         f"seq {seq}: {op['op']} by handle {op['h']} changed cluster_config.json")
+            if (not js_only and cfg != mem["cfg"]) or (mem.get("js") is not None and _norm_js(js) != _norm_js(mem["js"])):
                 self.bad("disk_differs_from_writer", "files do not hold the state the up-to-date writer wrote",
                          f"seq {seq}: {op['op']} by handle {op['h']}")
 
